@@ -1,29 +1,30 @@
 #!/bin/bash
 # usage: tools/seedtest.sh <seed_dir> <check id>...
-# Applies <seed_dir>/patch.diff to /repo, confirms the repository's own tests still pass and the
-# demonstration fails, runs the given checks (quick), then restores /repo. Prints one summary line.
+# Tries one property-breaking change WITHOUT touching /repo: makes a scratch worktree of /repo's HEAD, applies
+# <seed_dir>/patch.diff there, confirms the repository's own tests still pass and the demonstration fails,
+# runs the given checks (quick) against that worktree (VERIF_REPO), then removes the worktree.
 set -u
 SD=$1; shift
 export GOFLAGS=-mod=mod GOPROXY=off GOSUMDB=off GOTOOLCHAIN=local GOCACHE=/verif/.cache/go-build
-cd /repo || exit 2
-if [ -n "$(git status --porcelain)" ]; then echo "SEEDTEST: /repo not clean"; exit 2; fi
-restore() { git -C /repo checkout -- . ; rm -f /repo/zz_seed_demo_test.go; git -C /repo clean -fdq; }
-trap restore EXIT
-# demo must pass on the unchanged tree
-cp "$SD/demo_test.go" /repo/zz_seed_demo_test.go
+T=$(mktemp -d /tmp/seedrepo.XXXXXX)
+git -C /repo worktree add --detach "$T/r" HEAD >/dev/null 2>&1 || { echo "SEEDTEST: cannot create worktree"; exit 2; }
+cleanup() { git -C /repo worktree remove --force "$T/r" >/dev/null 2>&1; rm -rf "$T"; }
+trap cleanup EXIT
+cd "$T/r" || exit 2
+cp "$SD/demo_test.go" zz_seed_demo_test.go 2>/dev/null || cp "$SD/demo_test.go.txt" zz_seed_demo_test.go
 BASE=$(timeout 300 go test -vet=off -count=1 -run 'TestSeedDemo' . 2>&1 | tail -1)
-rm -f /repo/zz_seed_demo_test.go
+rm -f zz_seed_demo_test.go
 if ! git apply "$SD/patch.diff" 2>/dev/null; then
   if ! patch -p1 -s -F3 < "$SD/patch.diff" >/dev/null 2>&1; then echo "SEEDTEST $SD: patch does not apply"; exit 3; fi
   find . -name '*.orig' -delete; find . -name '*.rej' -delete
 fi
-SUITE=$(timeout 600 go test -vet=off -count=1 ./... 2>&1 | grep -E '^(ok|FAIL|---)' | head -3 | tr '\n' ' ')
-cp "$SD/demo_test.go" /repo/zz_seed_demo_test.go
+SUITE=$(timeout 600 go test -vet=off -count=1 . 2>&1 | grep -E '^(ok|FAIL|---)' | head -3 | tr '\n' ' ')
+cp "$SD/demo_test.go" zz_seed_demo_test.go 2>/dev/null || cp "$SD/demo_test.go.txt" zz_seed_demo_test.go
 DEMO=$(timeout 300 go test -vet=off -count=1 -run 'TestSeedDemo' . 2>&1 | tail -1)
-rm -f /repo/zz_seed_demo_test.go
+rm -f zz_seed_demo_test.go
 echo "SEEDTEST $SD: demo-on-clean=[$BASE] suite-with-patch=[$SUITE] demo-with-patch=[$DEMO]"
 for ID in "$@"; do
-  OUT=$(cd /verif && timeout 900 bin/check $ID quick 2>&1)
+  OUT=$(cd /verif && VERIF_REPO="$T/r" VERIF_EVIDENCE="$T/ev" VERIF_REPLAYS="$T/rp" timeout 900 bin/check $ID quick 2>&1)
   RC=$?
   NV=$(echo "$OUT" | grep -c '^VIOLATION')
   echo "  check $ID: exit=$RC violations=$NV  $(echo "$OUT" | grep -A2 '^VIOLATION' | grep 'what:' | head -1 | cut -c1-260)"
